@@ -30,12 +30,12 @@ def gen_cases(tier, seed):
     rng = np.random.default_rng(seed + 71)
     cases = []
     kinds = ["standard", "diag", "cond_diag", "bernoulli", "mademog"]
-    n = 12 if tier == "quick" else 300
+    n = 12 if tier == "quick" else 800
     for k in kinds:
         for i in range(n):
             cases.append({"kind": "dist", "cfg": dzoo.sample_dist_cfg(rng, [k]), "seed": env.subseed(seed, "c18", k, i),
                           "world": "f32" if i % 2 else "f64", "cost": 1})
-    for i in range(40 if tier == "quick" else 1000):
+    for i in range(40 if tier == "quick" else 3000):
         cases.append({"kind": "flow", "cfg": dzoo.sample_flow_cfg(rng), "seed": env.subseed(seed, "c18f", i),
                       "world": "f32" if i % 2 else "f64", "cost": 3})
     cases.append({"kind": "suite", "seed": env.subseed(seed, "c18suite"), "world": "f32", "cost": 30})
